@@ -22,7 +22,7 @@
      own == (C13_reference_equality_is_field_equivalence); the tuple-identity statements carry
      the hypothesis noflt L. *)
 From Coq Require Import ZArith List Bool.
-From Cntgs Require Import Base Layout Mem Vector Proxy World Spec Rep CompareThm ElemThm CmpContent FastEq.
+From Cntgs Require Import Base Layout Mem Vector Proxy World Spec Rep CompareThm ElemThm CmpContent FastEq LessVec.
 Import ListNotations.
 Local Open Scope Z_scope.
 
@@ -141,3 +141,15 @@ Example C13_padding_is_not_compared :
   ref_equal Lpad (getv wpad 0) 1 (getv wpad 1) 1 = true /\
   ref_equal Lpad (getv wpad 0) 0 (getv wpad 1) 1 = false.
 Proof. vm_compute. repeat split. Qed.
+
+(* vector == for EVERY list (floating-point fields included) on the element-wise path - which
+   lists with a non-memcmp-able type always take: in every pair of represented states it is true
+   exactly when the two lists have the same length and corresponding elements hold field-wise
+   equal objects under the value type's own == *)
+Theorem C13_vector_equality_is_field_equivalence : forall L, wf_plist L = true ->
+  forall v1 l1 v2 l2, Rep L v1 l1 -> Rep L v2 l2 ->
+  (forallb eqm L && padfree L && list_eqb (v_fixed v1) (v_fixed v2)) = false ->
+  (vec_equal L v1 v2 = true <->
+   length l1 = length l2 /\ forall i, (i < length l1)%nat -> tuple_eqv L (nth i l1 []) (nth i l2 [])).
+Proof. intros L Hwf v1 l1 v2 l2 [o1 R1] [o2 R2]. exact (vec_equal_eqv_elementwise L Hwf v1 v2 l1 l2 o1 o2 R1 R2). Qed.
+Print Assumptions C13_vector_equality_is_field_equivalence.
